@@ -366,9 +366,11 @@ Proof.
   destruct Hs as (H1 & H2 & H3). cbn [flat_map]. apply inc_app.
   split; [|split; [apply IH; exact H3|]].
   - unfold epoch_events. cbn [fst snd].
-    destruct (rising_on d && (s >? 0)); destruct (falling_on d && (e <? len)); cbn [app inc In];
-      repeat split; try (intros ? []); auto.
-    intros x [<-|[]]. cbn [snd]. lia.
+    destruct (rising_on d && (s >? 0)); destruct (falling_on d && (e <? len)); cbn [app inc].
+    + split; [intros x [<-|[]]; cbn [snd]; lia|]. split; [intros x []|exact I].
+    + split; [intros x []|exact I].
+    + split; [intros x []|exact I].
+    + exact I.
   - intros [k1 a1] [k2 a2] Ha Hb. apply epoch_events_In in Ha. apply in_flat_map in Hb.
     destruct Hb as ([s' e'] & Hin & Hb). apply epoch_events_In in Hb.
     pose proof (H2 _ _ Hin). pose proof (ssep_In_lt _ _ _ _ H3 Hin). cbn [snd].
@@ -379,4 +381,302 @@ Qed.
 Lemma step_list_inc : forall d m s0 w, inc (step_list d m s0 w).
 Proof.
   intros. unfold step_list. apply flat_events_inc. apply ssep_filter. apply runs_ssep0.
+Qed.
+
+(* ------------------------------------------------------------------ *)
+(* prefixes and suffixes                                                *)
+(* ------------------------------------------------------------------ *)
+Lemma bit_app_l : forall a b j, j < zlen a -> bit (a ++ b) j = bit a j.
+Proof. intros a b j H. rewrite bit_app. destruct (j <? zlen a) eqn:E; [reflexivity|lia]. Qed.
+
+Lemma wclean_prefix : forall m a b, wclean m (a ++ b) -> wclean m a.
+Proof.
+  intros m a b H i j Hi Hj H1 H2. pose proof (zlen_nonneg _ b) as Hb.
+  apply H; [lia|rewrite zlen_app; lia| |]; rewrite !bit_app_l by lia; assumption.
+Qed.
+
+Lemma wclean_skipn : forall m k u, (k <= length u)%nat -> wclean m u -> wclean m (skipn k u).
+Proof.
+  intros m k u Hk H i j Hi Hj H1 H2. rewrite zlen_skipn in Hj by exact Hk.
+  rewrite !bit_skipn in H1, H2 by lia.
+  replace (i - 1 + Z.of_nat k) with (i + Z.of_nat k - 1) in H1 by lia.
+  assert (m < (j + Z.of_nat k) - (i + Z.of_nat k)); [|lia].
+  apply H; [lia|lia|exact H1|exact H2].
+Qed.
+
+Lemma edge_at_prefix : forall a b p k, edge_at a p k <-> (edge_at (a ++ b) p k /\ p < zlen a).
+Proof.
+  intros a b p k. unfold edge_at. rewrite zlen_app. pose proof (zlen_nonneg _ b) as Hb. split.
+  - intros (H1 & H2 & H3). rewrite !bit_app_l by lia. repeat split; try assumption; lia.
+  - intros ((H1 & H2 & H3) & H4). rewrite !bit_app_l in H2, H3 by lia. repeat split; try assumption; lia.
+Qed.
+
+Lemma edge_at_skipn : forall k u p kd, (k <= length u)%nat -> 1 <= p ->
+  (edge_at (skipn k u) p kd <-> edge_at u (p + Z.of_nat k) kd).
+Proof.
+  intros k u p kd Hk Hp. unfold edge_at. rewrite zlen_skipn by exact Hk.
+  rewrite !bit_skipn by lia. replace (p - 1 + Z.of_nat k) with (p + Z.of_nat k - 1) by lia.
+  split; intros (H1 & H2 & H3); repeat split; try assumption; lia.
+Qed.
+
+Lemma py_tail : forall m (w : list bool), 1 <= m <= zlen w ->
+  py_slice (Some (- m)) None w = skipn (Z.to_nat (zlen w - m)) w.
+Proof.
+  intros m w H. unfold py_slice, py_lo, py_hi, adj_bound.
+  destruct (- m <? 0) eqn:E; [|lia].
+  replace (Z.max 0 (- m + zlen w)) with (zlen w - m) by lia.
+  apply firstn_all2. rewrite skipn_length. unfold zlen in *. lia.
+Qed.
+
+Definition st_annfs (st : estate) : option Z := if st_ann st then Some (st_fs st) else None.
+
+Lemma joinable_ok : forall st c, c_ann c = option_map (fun f => (st_s0 st + zlen (st_prior st), f)) (st_annfs st) ->
+  joinable st c = true.
+Proof.
+  intros st c H. unfold joinable. rewrite H. unfold st_annfs. destruct (st_ann st); cbn; [lia|reflexivity].
+Qed.
+
+Lemma stream_cons : forall c t, stream (c :: t) = c_data c ++ stream t.
+Proof. reflexivity. Qed.
+
+(* ------------------------------------------------------------------ *)
+(* which edges of U (= carried samples ++ all remaining input) get reported *)
+(* ------------------------------------------------------------------ *)
+Definition reported (d : detect) (m s0 : Z) (U : list bool) (k : kind) (a : Z) : Prop :=
+  wanted d (k, a) = true /\
+  exists p, a = p + s0 /\ edge_at U p k /\
+            (k = Rising -> p <= zlen U - m) /\ (k = Falling -> m <= p).
+
+Lemma split_reported : forall d m s0 w rest n k a,
+  1 <= m -> zlen w = m + n -> 0 <= n ->
+  (reported d m s0 (w ++ rest) k a <->
+   reported d m s0 w k a \/ reported d m (s0 + n) (skipn (Z.to_nat n) (w ++ rest)) k a).
+Proof.
+  intros d m s0 w rest n k a Hm Hw Hn.
+  assert (Hk : (Z.to_nat n <= length (w ++ rest))%nat) by (rewrite app_length; unfold zlen in Hw; lia).
+  pose proof (zlen_nonneg _ rest) as Hr.
+  assert (HU : zlen (w ++ rest) = m + n + zlen rest) by (rewrite zlen_app; lia).
+  assert (HU' : zlen (skipn (Z.to_nat n) (w ++ rest)) = m + zlen rest) by (rewrite zlen_skipn by exact Hk; lia).
+  unfold reported. split.
+  - intros (Hwd & p & -> & E & PR & PF).
+    destruct k.
+    + specialize (PR eq_refl). destruct (Z_le_dec p n) as [L|L].
+      * left. split; [exact Hwd|]. exists p. split; [reflexivity|]. split; [|split; [intros _; lia|discriminate]].
+        apply (edge_at_prefix w rest). split; [exact E|lia].
+      * right. split; [exact Hwd|]. exists (p - n). split; [lia|]. split; [|split; [intros _; lia|discriminate]].
+        apply edge_at_skipn; [exact Hk|lia|]. replace (p - n + Z.of_nat (Z.to_nat n)) with p by lia. exact E.
+    + specialize (PF eq_refl). destruct (Z_lt_dec p (m + n)) as [L|L].
+      * left. split; [exact Hwd|]. exists p. split; [reflexivity|]. split; [|split; [discriminate|intros _; lia]].
+        apply (edge_at_prefix w rest). split; [exact E|lia].
+      * right. split; [exact Hwd|]. exists (p - n). split; [lia|]. split; [|split; [discriminate|intros _; lia]].
+        apply edge_at_skipn; [exact Hk|lia|]. replace (p - n + Z.of_nat (Z.to_nat n)) with p by lia. exact E.
+  - intros [(Hwd & p & -> & E & PR & PF)|(Hwd & p & -> & E & PR & PF)].
+    + split; [exact Hwd|]. exists p. split; [reflexivity|].
+      apply (edge_at_prefix w rest) in E. destruct E as [E El]. split; [exact E|].
+      split; intros K; [specialize (PR K)|specialize (PF K)]; lia.
+    + split; [exact Hwd|]. exists (p + n). split; [lia|].
+      assert (P1 : 1 <= p) by (destruct E as [E _]; lia).
+      apply edge_at_skipn in E; [|exact Hk|exact P1].
+      replace (p + Z.of_nat (Z.to_nat n)) with (p + n) in E by lia. split; [exact E|].
+      split; intros K; [specialize (PR K)|specialize (PF K)]; lia.
+Qed.
+
+(* everything this step reports precedes everything later steps report *)
+Lemma cross_order : forall d m s0 w rest n k1 a1 k2 a2,
+  1 <= m -> zlen w = m + n -> 0 <= n -> wclean m (w ++ rest) ->
+  reported d m s0 w k1 a1 ->
+  reported d m (s0 + n) (skipn (Z.to_nat n) (w ++ rest)) k2 a2 -> a1 < a2.
+Proof.
+  intros d m s0 w rest n k1 a1 k2 a2 Hm Hw Hn Hc
+         (_ & p1 & -> & E1 & PR1 & PF1) (_ & p2 & -> & E2 & PR2 & PF2).
+  assert (Hk : (Z.to_nat n <= length (w ++ rest))%nat) by (rewrite app_length; unfold zlen in Hw; lia).
+  assert (P2 : 1 <= p2) by (destruct E2 as [E2 _]; lia).
+  apply edge_at_skipn in E2; [|exact Hk|exact P2].
+  replace (p2 + Z.of_nat (Z.to_nat n)) with (p2 + n) in E2 by lia.
+  pose proof E1 as (R1 & _).
+  apply (edge_at_prefix w rest) in E1. destruct E1 as [E1 _].
+  destruct k1.
+  - specialize (PR1 eq_refl). lia.
+  - destruct k2.
+    + destruct E1 as (A1 & A2 & A3). destruct E2 as (B1 & B2 & B3). cbn [is_rising negb] in *.
+      destruct (Z_lt_dec p1 (p2 + n)) as [L|L]; [lia|]. exfalso.
+      assert (p2 + n <> p1) by (intros K; rewrite K in B2; congruence).
+      assert (m < p1 - (p2 + n)); [|lia].
+      apply Hc; [lia|lia|congruence|congruence].
+    + specialize (PF2 eq_refl). lia.
+Qed.
+
+Lemma run_from_char : forall d m, 1 <= m -> forall cs st,
+  zlen (st_prior st) = m ->
+  chunks_ok (st_annfs st) (st_s0 st + m) cs ->
+  wclean m (st_prior st ++ stream cs) ->
+  exists bs, run_from d m st cs = (bs, Ok) /\
+    inc (concat (map evs bs)) /\
+    forall k a, In (k, a) (concat (map evs bs)) <->
+                reported d m (st_s0 st) (st_prior st ++ stream cs) k a.
+Proof.
+  intros d m Hm. induction cs as [|c t IH]; intros st Hp Hok Hc.
+  - exists []. split; [reflexivity|]. split; [exact I|]. intros k a. cbn [map concat In].
+    split; [intros []|].
+    intros (_ & p & _ & (P1 & _) & PR & PF). unfold stream in P1, PR. cbn [map concat] in P1, PR.
+    rewrite app_nil_r in P1, PR.
+    destruct k; [specialize (PR eq_refl)|specialize (PF eq_refl)]; lia.
+  - destruct Hok as [Hann Hok]. rewrite stream_cons in *.
+    set (w := st_prior st ++ c_data c) in *. set (n := zlen (c_data c)) in *.
+    assert (Hw : zlen w = m + n) by (unfold w, n; rewrite zlen_app; lia).
+    assert (Hn : 0 <= n) by apply zlen_nonneg.
+    assert (HU : st_prior st ++ c_data c ++ stream t = w ++ stream t)
+      by (unfold w; rewrite app_assoc; reflexivity).
+    rewrite HU in *.
+    assert (Hcw : wclean m w) by (eapply wclean_prefix; exact Hc).
+    assert (Hj : joinable st c = true) by (apply joinable_ok; rewrite Hp; exact Hann).
+    pose (st' := {| st_prior := py_slice (Some (- m)) None w; st_s0 := st_s0 st + n;
+                    st_fs := st_fs st; st_ann := st_ann st |}).
+    pose (E := {| evs := step_list d m (st_s0 st) w; e_start := st_s0 st;
+                  e_end := st_s0 st + n; e_fs := st_fs st |}).
+    assert (Hstep : step d m st c = Some (E, st')).
+    { unfold step. rewrite Hj. fold w. fold n.
+      rewrite (step_events_clean d m (st_s0 st) w) by (try lia; exact Hcw). reflexivity. }
+    assert (Hkn : (Z.to_nat n <= length w)%nat) by (unfold zlen in Hw; lia).
+    assert (Hpr : st_prior st' = skipn (Z.to_nat n) w).
+    { cbn [st' st_prior]. rewrite py_tail by lia. f_equal. lia. }
+    assert (HU' : st_prior st' ++ stream t = skipn (Z.to_nat n) (w ++ stream t)).
+    { rewrite Hpr, skipn_app. replace (Z.to_nat n - length w)%nat with 0%nat by lia. reflexivity. }
+    destruct (IH st') as (bs' & R1 & R2 & R3).
+    + rewrite Hpr, zlen_skipn by exact Hkn. lia.
+    + unfold st_annfs in *. cbn [st' st_s0 st_ann st_fs].
+      replace (st_s0 st + n + m) with (st_s0 st + m + n) by lia. exact Hok.
+    + rewrite HU'. apply wclean_skipn; [rewrite app_length; lia|exact Hc].
+    + rewrite HU' in R3. cbn [st' st_s0] in R3.
+      assert (M1 : forall k a, In (k, a) (step_list d m (st_s0 st) w) <-> reported d m (st_s0 st) w k a).
+      { intros k a. apply window_events; assumption. }
+      exists (E :: bs'). split; [cbn [run_from]; rewrite Hstep, R1; reflexivity|].
+      cbn [map concat]. cbn [E evs]. split.
+      * apply inc_app. split; [apply step_list_inc|]. split; [exact R2|].
+        intros [k1 a1] [k2 a2] I1 I2. cbn [snd].
+        apply M1 in I1. apply R3 in I2.
+        eapply (cross_order d m (st_s0 st) w (stream t) n); eassumption.
+      * intros k a. rewrite in_app_iff, M1, R3. symmetry. apply split_reported; assumption.
+Qed.
+
+(* ------------------------------------------------------------------ *)
+(* the boolean precondition implies the positional one                  *)
+(* ------------------------------------------------------------------ *)
+Definition wcleanx (m : Z) (prev : bool) (x : list bool) : Prop :=
+  forall i j, 0 <= i -> i < j < zlen x -> xbit prev x (i - 1) <> bit x i -> bit x j <> bit x i -> m < j - i.
+
+Lemma clean_aux_spec : forall m x prev cnt, clean_aux m prev cnt x = true ->
+  (forall j, 0 <= j < zlen x -> bit x j <> prev -> m < cnt + j) /\ wcleanx m prev x.
+Proof.
+  intros m. induction x as [|b t IH]; intros prev cnt H.
+  - split; [intros j Hj; rewrite zlen_nil in Hj; lia|intros i j Hi Hj; rewrite zlen_nil in Hj; lia].
+  - cbn [clean_aux] in H. rewrite zlen_cons. destruct (Bool.eqb b prev) eqn:E.
+    + apply eqb_prop in E. subst b. destruct (IH _ _ H) as [I1 I2]. split.
+      * intros j Hj Hb. rewrite bit_cons in Hb. destruct (j =? 0) eqn:E0; [congruence|].
+        assert (m < cnt + 1 + (j - 1)) by (apply I1; [lia|exact Hb]). lia.
+      * intros i j Hi Hj H1 H2. destruct (Z.eq_dec i 0) as [->|Ni].
+        -- exfalso. apply H1. reflexivity.
+        -- rewrite xbit_cons in H1 by lia. rewrite (bit_cons prev t i) in H1, H2.
+           rewrite (bit_cons prev t j) in H2.
+           destruct (i =? 0) eqn:Ei; [lia|]. destruct (j =? 0) eqn:Ej; [lia|].
+           assert (m < (j - 1) - (i - 1)); [|lia]. apply I2; [lia|lia|exact H1|exact H2].
+    + apply andb_true_iff in H. destruct H as [Hcnt H]. destruct (IH _ _ H) as [I1 I2]. split.
+      * intros j Hj Hb. lia.
+      * intros i j Hi Hj H1 H2. destruct (Z.eq_dec i 0) as [->|Ni].
+        -- rewrite (bit_cons b t j), (bit_cons b t 0) in H2. cbn [Z.eqb] in H2.
+           destruct (j =? 0) eqn:Ej; [lia|].
+           assert (m < 1 + (j - 1)) by (apply I1; [lia|exact H2]). lia.
+        -- rewrite xbit_cons in H1 by lia. rewrite (bit_cons b t i) in H1, H2.
+           rewrite (bit_cons b t j) in H2.
+           destruct (i =? 0) eqn:Ei; [lia|]. destruct (j =? 0) eqn:Ej; [lia|].
+           assert (m < (j - 1) - (i - 1)); [|lia]. apply I2; [lia|lia|exact H1|exact H2].
+Qed.
+
+Lemma clean_wclean : forall m init x, 0 <= m -> clean m init x = true ->
+  wclean m (repeat init (Z.to_nat m) ++ x).
+Proof.
+  intros m init x Hm H. destruct (clean_aux_spec _ _ _ _ H) as [_ Hx].
+  intros i j Hi Hj H1 H2. rewrite zlen_app, zlen_repeat in Hj.
+  rewrite !bit_prefix_rep in H1, H2 by lia. rewrite Z2Nat.id in * by lia.
+  destruct (Z_lt_dec i m) as [L|L].
+  - exfalso. apply H1. unfold xbit. destruct (i - 1 - m <? 0) eqn:E1; [|lia].
+    destruct (i - m <? 0) eqn:E2; [reflexivity|lia].
+  - assert (m < (j - m) - (i - m)); [|lia].
+    assert (X1 : xbit init x (i - m) = bit x (i - m)) by (unfold xbit; destruct (i - m <? 0) eqn:E; [lia|reflexivity]).
+    assert (X2 : xbit init x (j - m) = bit x (j - m)) by (unfold xbit; destruct (j - m <? 0) eqn:E; [lia|reflexivity]).
+    rewrite X1 in H1, H2. rewrite X2 in H2.
+    apply Hx; [lia|lia| |exact H2]. replace (i - m - 1) with (i - 1 - m) by lia. exact H1.
+Qed.
+
+Lemma clean_aux_prefix : forall m a b prev cnt, clean_aux m prev cnt (a ++ b) = true -> clean_aux m prev cnt a = true.
+Proof.
+  intros m. induction a as [|x a IH]; intros b prev cnt H; [reflexivity|].
+  cbn [app clean_aux] in *. destruct (Bool.eqb x prev).
+  - eapply IH. exact H.
+  - apply andb_true_iff in H. destruct H as [H1 H2]. apply andb_true_iff. split; [exact H1|].
+    eapply IH. exact H2.
+Qed.
+
+(* ------------------------------------------------------------------ *)
+(* the whole run                                                        *)
+(* ------------------------------------------------------------------ *)
+Lemma start_facts : forall m init fs_arg c t first, 0 <= m -> input_ok first (c :: t) ->
+  let st := start m init fs_arg c in
+  zlen (st_prior st) = m /\ st_prior st = repeat init (Z.to_nat m) /\ st_s0 st = first - m /\
+  chunks_ok (st_annfs st) (st_s0 st + m) (c :: t).
+Proof.
+  intros m init fs_arg c t first Hm Hin. cbn zeta.
+  destruct Hin as [[-> Hok]|[fs Hok]]; pose proof Hok as [Ha _]; unfold start; rewrite Ha; cbn [option_map];
+    cbn [st_prior st_s0]; (split; [rewrite zlen_repeat; lia|]); (split; [reflexivity|]); (split; [lia|]);
+    unfold st_annfs; cbn [st_ann st_fs st_s0].
+  - replace (- m + m) with 0 by lia. exact Hok.
+  - replace (first - m + m) with first by lia. exact Hok.
+Qed.
+
+(* reported edges of U0 = (m copies of the initial state) ++ stream are the due transitions *)
+Lemma reported_transitions : forall d m init first x k a, 1 <= m ->
+  (reported d m (first - m) (repeat init (Z.to_nat m) ++ x) k a <->
+   In (k, a) (filter (wanted d) (filter (due_by m (first + zlen x)) (transitions init first x)))).
+Proof.
+  intros d m init first x k a Hm.
+  rewrite !filter_In, transitions_In. unfold reported, edge_at.
+  rewrite zlen_app, zlen_repeat, Z2Nat.id by lia.
+  unfold due_by. cbn [fst snd]. split.
+  - intros (Hwd & p & -> & (P1 & P2 & P3) & PR & PF).
+    rewrite !bit_prefix_rep in P2, P3 by lia. rewrite Z2Nat.id in P2, P3 by lia.
+    assert (Hpm : m <= p).
+    { destruct (Z_le_dec m p) as [L|L]; [exact L|]. exfalso. unfold xbit in P2, P3.
+      destruct (p - m <? 0) eqn:E1; [|lia]. destruct (p - 1 - m <? 0) eqn:E2; [|lia].
+      rewrite P2 in P3. destruct (is_rising k); discriminate. }
+    split; [|exact Hwd]. split.
+    + exists (p - m). split; [lia|]. split; [lia|]. split.
+      * unfold xbit in P2. destruct (p - m <? 0) eqn:E; [lia|exact P2].
+      * replace (p - m - 1) with (p - 1 - m) by lia. exact P3.
+    + destruct k; [specialize (PR eq_refl)|]; lia.
+  - intros (((j & Hj & -> & B1 & B2) & Hdue) & Hwd).
+    split; [exact Hwd|]. exists (j + m). split; [lia|]. split; [|split].
+    + rewrite !bit_prefix_rep by lia. rewrite Z2Nat.id by lia. split; [lia|]. split.
+      * replace (j + m - m) with j by lia. unfold xbit. destruct (j <? 0) eqn:E; [lia|exact B1].
+      * replace (j + m - 1 - m) with (j - 1) by lia. exact B2.
+    + intros ->. lia.
+    + intros _. lia.
+Qed.
+
+Lemma all_full : forall d m init fs_arg cs first,
+  1 <= m -> input_ok first cs -> clean m init (stream cs) = true ->
+  exists bs, run_edges d m init fs_arg cs = (bs, Ok) /\
+    concat (map evs bs) =
+    filter (wanted d) (filter (due_by m (first + zlen (stream cs))) (transitions init first (stream cs))).
+Proof.
+  intros d m init fs_arg cs first Hm Hin Hcl. unfold run_edges.
+  destruct (m <? 1) eqn:E; [lia|].
+  destruct cs as [|c t].
+  - exists []. split; reflexivity.
+  - destruct (start_facts m init fs_arg c t first ltac:(lia) Hin) as (S1 & S2 & S3 & S4).
+    destruct (run_from_char d m Hm (c :: t) (start m init fs_arg c) S1 S4) as (bs & R1 & R2 & R3).
+    + rewrite S2. apply clean_wclean; [lia|exact Hcl].
+    + exists bs. split; [exact R1|]. apply inc_ext.
+      * exact R2.
+      * apply inc_filter. apply inc_filter. apply transitions_inc.
+      * intros [k a]. rewrite R3, S2, S3. apply reported_transitions. exact Hm.
 Qed.
